@@ -306,10 +306,94 @@ func Run(c *common.Ctx) error {
 			return err
 		}
 	}
-	for i := 0; i < c.Pick(4, 24); i++ {
+	// every way a commit step is issued (the three rollback-journal finalisations, the WAL write-lock release)
+	// against both ways of losing write authority
+	for i := 0; i < c.Pick(8, 24); i++ {
 		if err := demotion(c, c.Rng.Fork(), i); err != nil {
 			return err
 		}
+	}
+	for i := 0; i < c.Pick(2, 6); i++ {
+		if err := haltReleaseWithoutPrimary(c, c.Rng.Fork(), i); err != nil {
+			return err
+		}
+	}
+	return nil
+}
+
+// haltReleaseWithoutPrimary: a replica holds a database's halt lock (it may write), loses sight of the primary and
+// then gives the lock up. Releasing cannot reach the primary, but the node has given up its write authority all the
+// same: from then on it must refuse writes like any replica.
+func haltReleaseWithoutPrimary(c *common.Ctx, r *common.Rand, idx int) error {
+	dir, err := os.MkdirTemp(c.OutDir, "c07h-")
+	if err != nil {
+		return err
+	}
+	defer os.RemoveAll(dir)
+	clu := cluster.New(dir, 2*time.Second)
+	defer clu.Close()
+	p, err := clu.Start("p", true)
+	if err != nil {
+		return err
+	}
+	if clu.WaitPrimary(5*time.Second) == nil {
+		return fmt.Errorf("no primary")
+	}
+	rn, err := clu.Start("r", false)
+	if err != nil {
+		return err
+	}
+	h := hist.NewOn(c, r.Fork(), hist.Config{PageSize: 512}, p.Store, p.Exits, "db", nil, 0, false)
+	if err := commitN(h, 2+idx%2, false); err != nil {
+		return err
+	}
+	pp := p.Store.DB("db").Pos()
+	if !cluster.WaitPos(rn, "db", uint64(pp.TXID), uint64(pp.PostApplyChecksum), 10*time.Second) {
+		return fmt.Errorf("replica did not catch up")
+	}
+	rdb := rn.Store.DB("db")
+	if _, err := rdb.AcquireRemoteHaltLock(ctx, int64(40+idx)); err != nil {
+		return fmt.Errorf("halt lock: %v", err)
+	}
+	// the primary goes away; the replica notices when its stream ends
+	p.Stop()
+	deadline := time.Now().Add(5 * time.Second)
+	for time.Now().Before(deadline) {
+		if _, info := rn.Store.PrimaryInfo(); info == nil {
+			break
+		}
+		time.Sleep(2 * time.Millisecond)
+	}
+	_, info := rn.Store.PrimaryInfo()
+	c.Evaluations++
+	c.Distinct(fmt.Sprintf("halt-release-without-primary:%v", info == nil))
+	rep := map[string]any{"kind": "readonly-halt-release", "index": idx, "primary_known": info != nil}
+	relErr := rdb.ReleaseRemoteHaltLock(ctx, int64(40+idx))
+	rep["release_error"] = fmt.Sprint(relErr)
+	before := snapshot(rn, "db")
+	cur, _ := lfs.ReadImage(filepath.Dir(rdb.DatabasePath()))
+	hr := hist.NewOn(c, r.Fork(), hist.Config{PageSize: 512}, rn.Store, rn.Exits, "db", cur, before.txid, false)
+	lfs.BusyTimeout = 100 * time.Millisecond
+	var ob hist.Obs
+	for tries := 0; tries < 100; tries++ {
+		st := hr.GenStep()
+		if st.Op != "rtx" {
+			continue
+		}
+		st.Outcome, st.ToWAL, st.Spill = 0, false, 0
+		ob = hr.Exec(st)
+		break
+	}
+	lfs.BusyTimeout = 3 * time.Second
+	after := snapshot(rn, "db")
+	key := "C07:halt-release-without-primary"
+	if after != before {
+		c.Violate(key+":changed", fmt.Sprintf("a replica that gave up its halt lock (release answered: %v; primary known: %v) still accepted writes: database %+v -> %+v (the transaction answered %q)", relErr, info != nil, before, after, ob.Err), rep)
+	} else if ob.Err == "" && ob.Panic == "" {
+		c.Violate(key+":accepted", "a replica that gave up its halt lock committed a transaction", rep)
+	}
+	if ex := rn.Exits(); len(ex) > 0 {
+		c.Violate(key+":exit", fmt.Sprintf("the replica called Exit(%v)", ex), rep)
 	}
 	return nil
 }
@@ -526,7 +610,9 @@ func demotion(c *common.Ctx, r *common.Rand, idx int) error {
 	if err != nil {
 		return err
 	}
-	wal := idx%2 == 1
+	// idx enumerates (commit step, way of losing authority): journal DELETE / TRUNCATE / PERSIST and WAL, demote / lease lost
+	wal := idx%4 == 3
+	jmode := idx % 4
 	h := hist.NewOn(c, r.Fork(), hist.Config{PageSize: 512, AllowWAL: wal, ForceWAL: wal}, p.Store, p.Exits, "db", nil, 0, false)
 	if err := commitN(h, 3, wal); err != nil {
 		return err
@@ -537,7 +623,7 @@ func demotion(c *common.Ctx, r *common.Rand, idx int) error {
 	}
 	before := snapshot(p, "db")
 	rbefore := snapshot(rn, "db")
-	how := []string{"demote", "lease-lost"}[idx/2%2]
+	how := []string{"demote", "lease-lost"}[idx/4%2]
 	lose := func() {
 		if how == "demote" {
 			p.Store.Demote()
@@ -559,13 +645,14 @@ func demotion(c *common.Ctx, r *common.Rand, idx int) error {
 		if st.Op == "rtx" {
 			st.Outcome = 0
 			st.ToWAL = false
+			st.JMode = jmode
 		}
 		ob = h.Exec(st)
 		break
 	}
 	h.Pager.BeforeCommit = nil
 	c.Evaluations++
-	mode := map[bool]string{true: "wal", false: "journal"}[wal]
+	mode := map[bool]string{true: "wal", false: fmt.Sprintf("journal-%d", jmode)}[wal]
 	c.Distinct("demotion:" + mode + ":" + how)
 	rep := map[string]any{"kind": "readonly-demotion", "mode": mode, "how": how, "steps": h.Steps, "error": ob.Err}
 	key := "C07:demotion:" + mode + ":" + how
